@@ -192,8 +192,9 @@ def handle (op : String) (j : Json) : Except String Json := do
     let failed := if impl.isNull then [] else
       (if Spec.outcomeAllowedC15 tag then [] else ["outcome:" ++ tag]) ++
       (if tag == "ok" && !(dumpOutEventsOk (fieldD impl "ok" Json.null)) then ["out-event-survived"] else []) ++
-      -- the clause read off the INPUT (C15.bad_document_refused): the document lists an out event with an out parameter
-      (if tag == "ok" && Spec.jBadDoc 2000 ast then ["document-with-an-out-parameter-on-an-out-event-accepted"] else [])
+      -- the clause read off the INPUT (C15.bad_document_refused): the document lists an out event with an out
+      -- parameter or a non-void reply
+      (if tag == "ok" && Spec.jBadDoc 2000 ast then ["document-with-an-invalid-out-event-accepted"] else [])
     pure (Json.mkObj [("model", resultJ r), ("failed", clauses failed)])
   | "c05" =>
     let src ← (← arrField j "src").mapM delemOf
